@@ -165,6 +165,8 @@ class UnitRun:
         self.gen = None
         self.vr = None
         self.probe_ok = {}
+        self.ablate = None
+        self.use_derived = True
 
     @property
     def label(self):
@@ -195,7 +197,7 @@ class UnitRun:
         return out
 
     def run(self):
-        g = Generator(REPO, benchmark=self.benchmark)
+        g = Generator(REPO, benchmark=self.benchmark, ablate=self.ablate, use_derived=self.use_derived)
         for attempt in range(8):
             self.gen = g.generate(self.tpath, probe=False, quarantine=set(self.quarantine))
             out = self.write_unit(self.gen['text'])
@@ -375,6 +377,8 @@ class UnitRun:
                     # an untagged loop clause / ghost hint supports the function's PRIMARY property (first default tag);
                     # implicit safety obligations (overflow, index, unwrap, panic) carry all default tags
                     tags = list(tags)[:1]
+                # properties whose proofs rest on this clause (contracts/derived_tags.json, computed by clause ablation)
+                tags = list(tags) + [t_ for t_ in self.gen.get('derived', {}).get(cid, []) if t_ not in tags]
                 oid = cid
                 explicit = bool(tags_of.get(cid, ([], None, None, None))[0]) and cid in self.gen.get('explicit_tagged', set())
                 internal = kind in ('before-loop', 'loop-head', 'loop-tail', 'after-loop', 'before', 'after', 'at-start', 'at-end') \
